@@ -362,7 +362,7 @@ func (w *World) NewPod(s PodSpec) *v1.Pod {
 				return v1.NodeSelectorTerm{MatchExpressions: []v1.NodeSelectorRequirement{{Key: o.LabelKey, Operator: v1.NodeSelectorOpIn, Values: vals}}}
 			}
 			p.Spec.Affinity = &v1.Affinity{NodeAffinity: &v1.NodeAffinity{RequiredDuringSchedulingIgnoredDuringExecution: &v1.NodeSelector{
-				NodeSelectorTerms: []v1.NodeSelectorTerm{in(o.LabelValue + "0"), in("zzz", o.LabelValue)}}}}
+				NodeSelectorTerms: []v1.NodeSelectorTerm{in("zzz-"+o.LabelValue), in("zzz", o.LabelValue)}}}}
 		case "affinityAnd": // several expressions in one term; the one naming this group's value is the last
 			p.Spec.Affinity = &v1.Affinity{NodeAffinity: &v1.NodeAffinity{RequiredDuringSchedulingIgnoredDuringExecution: &v1.NodeSelector{
 				NodeSelectorTerms: []v1.NodeSelectorTerm{{MatchExpressions: []v1.NodeSelectorRequirement{
